@@ -352,8 +352,76 @@ fn fixed_short_sequences(run: &Run) {
     );
 }
 
+/// A learned LOW-RANKED choice for a base, then base + suffix key: the preselected index is derived from the base's
+/// choice and the suffix, and it must lie inside the list that is actually returned (lists of up to ~25 candidates).
+fn learned_low_rank_then_suffix(run: &Run) {
+    // bases with long lists, found by typing (deterministic): the hand pool + dictionary-guided spellings
+    let pool: Vec<String> = ["kor", "bon", "jao", "ar", "kal", "tar", "mon", "din", "bol", "por", "sob", "kot"].iter().map(|s| s.to_string()).chain(gen::guided_bases().iter().step_by(9).map(|(s, _)| s.clone())).collect();
+    // the shortest suffix keys give the longest lists (most bases' candidates survive the join)
+    let mut sk: Vec<String> = gen::pools().suffix_keys.clone();
+    sk.sort_by_key(|s| (s.len(), s.clone()));
+    sk.truncate(40);
+    let sk = &sk;
+    let items: Vec<(usize, usize)> = (0..pool.len()).flat_map(|b| (0..3usize).map(move |k| (b, k))).collect();
+    run.exhaustive(
+        "learned-low-ranked-choice-then-suffix",
+        &items,
+        |_| (),
+        |&(bi, k), st, _| {
+            let base = &pool[bi];
+            let opts = Opts::parse(if k == 1 { "se" } else { "s" });
+            let case0 = || json!({"opts": opts.letters(), "learned_low_rank": {"base": base}});
+            let pf = |p: crate::driver::PanicInfo| Failure::new(panic_kind(&p), p.to_string(), case0());
+            let probe = Ctx::new(opts, &Sandbox::new()).map_err(pf)?;
+            let n = probe.type_frontend(base).map_err(pf)?.map(|r| r.choices()).unwrap_or(0);
+            probe.finish().map_err(pf)?;
+            if n < 6 {
+                return Ok(());
+            }
+            // learn index n-1-k' for a few k', then type base+suffix for 10 suffix keys, every rendering checked
+            for back in [0usize, 1, 3] {
+                let idx = n - 1 - back;
+                let sb = Sandbox::new();
+                let ctx = Ctx::new(opts, &sb).map_err(pf)?;
+                let l = ctx.type_frontend(base).map_err(pf)?.unwrap();
+                if idx == l.sel || idx >= l.cands.len() {
+                    ctx.finish().map_err(pf)?;
+                    continue;
+                }
+                ctx.commit(idx).map_err(pf)?;
+                for j in 0..14usize {
+                    let s = &sk[(bi * 7 + j * 3 + k * 11 + back) % sk.len()];
+                    let text = format!("{base}{s}");
+                    let case = || json!({"opts": opts.letters(), "learned_low_rank": {"base": base, "index": idx, "suffix": s}});
+                    let mut sel = 0u8;
+                    let mut typed = String::new();
+                    for ch in text.chars() {
+                        typed.push(ch);
+                        let r = ctx.ch(ch, sel).map_err(pf)?;
+                        st.evals(1);
+                        check_suggestion(run, st, &r, &opts, Some(ch), sel, Some(&typed), &case)?;
+                        if !r.lonely && r.cands.len() > 16 {
+                            st.label("list-longer-than-16-with-a-learned-base");
+                        }
+                        if !r.lonely && r.cands.len() > 9 {
+                            st.label("list-longer-than-9-with-a-learned-base");
+                        }
+                        sel = if r.lonely { 0 } else { r.sel.min(255) as u8 };
+                    }
+                    ctx.finish().map_err(pf)?;
+                }
+                st.nontrivial(hash_of(&(base, idx, k)), || json!({"base": base, "learned_index": idx, "of": n}));
+            }
+            Ok(())
+        },
+    );
+    run.require_label("list-longer-than-16-with-a-learned-base", 20);
+    run.require_label("list-longer-than-9-with-a-learned-base", 200);
+}
+
 pub fn run(run: &Run) {
     fixed_short_sequences(run);
+    learned_low_rank_then_suffix(run);
     sweep(run);
     let (shards, cases) = match run.tier {
         Tier::Quick => (16, 600),
@@ -375,6 +443,26 @@ pub fn run(run: &Run) {
 pub fn replay(run: &Run, case: &Value) -> Result<(), Failure> {
     let mut st = Stats::new();
     let opts = Opts::parse(case["opts"].as_str().unwrap_or_default());
+    if let Some(ll) = case.get("learned_low_rank") {
+        let pf = |p: crate::driver::PanicInfo| Failure::new(panic_kind(&p), p.to_string(), case.clone());
+        let (base, idx, s) = (ll["base"].as_str().unwrap_or_default(), ll["index"].as_u64().unwrap_or(0) as usize, ll["suffix"].as_str().unwrap_or_default());
+        let sb = Sandbox::new();
+        let ctx = Ctx::new(opts, &sb).map_err(pf)?;
+        let l = ctx.type_frontend(base).map_err(pf)?.unwrap();
+        if idx < l.cands.len() {
+            ctx.commit(idx).map_err(pf)?;
+        } else {
+            ctx.finish().map_err(pf)?;
+        }
+        let (mut sel, mut typed) = (0u8, String::new());
+        for ch in format!("{base}{s}").chars() {
+            typed.push(ch);
+            let r = ctx.ch(ch, sel).map_err(pf)?;
+            check_suggestion(run, &mut st, &r, &opts, Some(ch), sel, Some(&typed), &|| case.clone())?;
+            sel = if r.lonely { 0 } else { r.sel.min(255) as u8 };
+        }
+        return Ok(());
+    }
     if let Some(seq) = case["fresh_method_sequence"].as_array() {
         use crate::driver::{layout_inverse, Layout};
         let inv = layout_inverse(Layout::Synthetic);
